@@ -63,7 +63,8 @@ CanonS(X) ==
         [i \in 1..Len(X.locks[k].cands) |-> <<X.locks[k].cands[i].c, X.locks[k].cands[i].reqs>>]>> : k \in DOMAIN X.locks},
      X.lockNodes,
      {<<c, X.lockedKeys[c]>> : c \in DOMAIN X.lockedKeys},
-     {<<id, X.spub[id]>> : id \in DOMAIN X.spub} >>
+     {<<id, X.spub[id]>> : id \in DOMAIN X.spub},
+     {<<c, X.csubs[c]>> : c \in DOMAIN X.csubs} >>
 
 \* in the edge dump every S is expanded once (VIEW S), so enabledness must not
 \* depend on the history R
